@@ -5,5 +5,6 @@ test -z "$(git -C /repo status --porcelain)" || { echo "/repo not clean"; exit 2
 git -C /repo apply "$P" || { echo "patch does not apply"; exit 2; }
 cd /verif && python3 tools/check.py $ID --tier $TIER > work/seed_$ID.log 2>&1; rc=$?
 git -C /repo checkout -- . 
+(cd /verif/harness && cargo build --offline -q 2>/dev/null)   # the harness binaries follow the clean tree again
 echo "exit=$rc"; grep -c "^VIOLATION" work/seed_$ID.log; grep -E "^VIOLATION|detail|KNOWN|TOOL" work/seed_$ID.log | head -${4:-6} | cut -c1-500
 tail -1 work/seed_$ID.log
